@@ -16,11 +16,11 @@ func init() {
 	core.Register(&core.Prop{
 		ID:    "C10",
 		Level: "exploration",
-		Rule: "case = seeded history (1-60 ops) on a sketch with exact summary statistics over {Add, AddWithCount (incl. weight 0), MergeWith, DecodeAndMergeWith, Copy-continue, Clear, Reweight, ChangeMapping, Encode->Decode into any store kind} with values from the hostile value generator (plus adversarial sum sequences: 2^53 then many 1.0, alternating +-large, tiny after huge) and dyadic weights; " +
+		Rule: "case = seeded history (1-60 ops) on a sketch with exact summary statistics over {Add, AddWithCount (incl. weight 0), rejected calls through Add, AddWithCount and Reweight (NaN, +-Inf, beyond the largest indexable value, negative weight, factor 0), MergeWith, DecodeAndMergeWith, Copy-continue, Clear, Reweight, ChangeMapping, Encode->Decode into any store kind} with values from the hostile value generator (plus adversarial sum sequences: 2^53 then many 1.0, alternating +-large, tiny after huge) and dyadic weights; " +
 			"after every event: GetCount exact, IsEmpty iff nothing with positive weight, GetMin/MaxValue bitwise the true extremes, GetSum within (16+8L)*2^-53*sum|v*w| of the exact sum (L = lossy events), every quantile == clamp(plain answer, min, max) and inside [min,max], bins equal to the model when defined. " +
 			"Non-trivial = history with >=1 merge-or-decode and >=1 of {Reweight, Clear, Copy, ChangeMapping}; distinct = hash of the history.",
 		Cases:     core.Scale(30000, 800000),
-		Mandatory: []string{"oracle.stat_checks", "oracle.sum_checks", "oracle.quantile_clamp_checks", "event.MergeWith", "event.DecodeAndMergeWith", "event.Reweight", "event.ChangeMapping", "event.Encode->Decode", "event.Copy->continue", "event.Clear", "adversarial_sum_cases", "adversarial_copy_chains", "zero_weight_adds"},
+		Mandatory: []string{"oracle.stat_checks", "oracle.sum_checks", "oracle.quantile_clamp_checks", "event.MergeWith", "event.DecodeAndMergeWith", "event.Reweight", "event.ChangeMapping", "event.Encode->Decode", "event.Copy->continue", "event.Clear", "adversarial_sum_cases", "adversarial_copy_chains", "zero_weight_adds", "event.rejected_call"},
 		Assumptions: []string{
 			"dyadic weights under the exactness budget make the count exact; sum bound calibrated (DESIGN §3.6)",
 			"a ChangeMapping may round min/max like fl(extreme*factor)",
@@ -245,6 +245,40 @@ func runC10(c *core.Ctx) {
 			return
 		}
 		kinds[op.kind] = true
+		if r.P(0.08) {
+			// a rejected call through either entry point: the statistics absorb nothing
+			k := st.s.I()
+			var err error
+			what := ""
+			beyond := math.Nextafter(st.m.M.MaxIndexableValue(), math.Inf(1))
+			c.Guard("rejected call", func() {
+				switch r.Intn(9) {
+				case 0:
+					what, err = "Add(NaN)", k.Add(math.NaN())
+				case 1:
+					what, err = "Add(+Inf)", k.Add(math.Inf(1))
+				case 2:
+					what, err = "Add(-Inf)", k.Add(math.Inf(-1))
+				case 3:
+					what, err = "Add(MaxFloat64)", k.Add(math.MaxFloat64)
+				case 4:
+					what, err = "Add(-next(MaxIndexableValue))", k.Add(-beyond)
+				case 5:
+					what, err = "AddWithCount(NaN, 2)", k.AddWithCount(math.NaN(), 2)
+				case 6:
+					what, err = "AddWithCount(next(MaxIndexableValue), 0.5)", k.AddWithCount(beyond, 0.5)
+				case 7:
+					what, err = "AddWithCount(v, -1)", k.AddWithCount(st.m.ClampIn(1), -1)
+				default:
+					what, err = "Reweight(0)", k.Reweight(0)
+				}
+			})
+			c.Logf("rejected call %s -> %v", what, err)
+			c.Count("event.rejected_call", 1)
+			if err == nil && !c.Failed() {
+				c.Failf("exact.rejected_call_accepted", "%s returned no error", what)
+			}
+		}
 		if (!adversarial && !soak) || i%97 == 0 || i == len(ops)-1 {
 			checkExactStats(c, st)
 		}
